@@ -10,7 +10,7 @@ from ..engines.seqsim import World
 ID = "C12"
 ENGINE = "seqsim"
 LEVEL = "exploration"
-RUNS = {"quick": 24000, "thorough": 300000}
+RUNS = {"quick": 60000, "thorough": 300000}
 CHUNK = 250
 RULE = ("value x entry point x class: a JSON value v is stored at a FRESH position through one mutating entry point "
         "(setitem, setdefault, update in 3 call forms, reset, append, extend, insert, +=, slice assignment, "
